@@ -2,7 +2,7 @@ package main
 
 // Space 3: structurally malformed input. For every valid token string up to a length bound (found
 // by exhaustive search over the token alphabet with the reference parser as the judge), every
-// single-token deletion and every insertion of every alphabet token at every position.
+// single-token deletion, every insertion and every substitution of every alphabet token at every position.
 
 import (
 	"fmt"
@@ -152,6 +152,18 @@ func runMalformed(ctx *bex.Ctx) {
 					}
 				}
 			}
+			for i := range ts { // substitutions (a closing bracket of the wrong kind keeps the counts balanced)
+				for _, a := range alpha {
+					if a.s == ts[i].s && a.alias == ts[i].alias {
+						continue
+					}
+					mut = append(append(append(mut[:0], ts[:i]...), a), ts[i+1:]...)
+					nMut++
+					if mine(mut) {
+						c.evalMutant(mut, ts, "substitute")
+					}
+				}
+			}
 			return true
 		})
 		c.flush()
@@ -159,5 +171,5 @@ func runMalformed(ctx *bex.Ctx) {
 	// every shard enumerates all valid strings and mutants and evaluates its share of the distinct ones
 	ctx.Max("max_valid_token_strings", nValid)
 	ctx.Max("max_mutants_generated_before_deduplication", nMut)
-	ctx.SpaceDone(fmt.Sprintf("%d tables %v; token alphabet: a 1 ( ) [ ] . , : every operator of the table (and its text alias) and the 8 keywords; every token string of <= %d tokens accepted by the reference, each with every single-token deletion and every insertion of every alphabet token at every position (distinct mutants per table evaluated once)", len(tables), tables, maxLen))
+	ctx.SpaceDone(fmt.Sprintf("%d tables %v; token alphabet: a 1 ( ) [ ] . , : every operator of the table (and its text alias) and the 8 keywords; every token string of <= %d tokens accepted by the reference, each with every single-token deletion, every insertion and every substitution of every alphabet token at every position (distinct mutants per table evaluated once)", len(tables), tables, maxLen))
 }
